@@ -310,5 +310,34 @@ def r9_memo(chk: Check) -> None:
                          "MEMO-KEY(response validation): the schema a response is validated against is chosen by operation, status code AND the received media type (OpenAPI 3: one schema per `content` entry); any explicit cache on that path is keyed by everything the cached value is computed from")
 
 
+def r10_media_type_predicates(chk: Check) -> None:
+    chk.rule("C04.R10", "NORMAL-FORM(media types): media types are case-insensitive and may carry parameters and a structured-syntax suffix; `parse` strips the parameters and returns BOTH parts lower-cased, and `is_json` - which decides whether a response body is validated against the schema at all - accepts `application/json` and every `application/*+json`, nothing else", floor=3)
+    P = chk.project
+    pf = P.func("core/media_types.py:parse")
+    rets = simple_return_expr(pf)
+    tup = next((r for r in rets if isinstance(r, ast.Tuple) and len(r.elts) == 2), None)
+    if tup is None:
+        chk.undecided("C04.R10", pf, "parse returns (main, sub)", "return shape not recognised", pf.loc())
+    else:
+        low = [any(x.endswith(".lower()") for x in canon(pf, e)) for e in tup.elts]
+        chk.decide(True if all(low) else False, "C04.R10", pf, "both parts of the media type are lower-cased",
+                   f"{'main type' if not low[0] else 'subtype'} keeps its spelling: `Application/JSON` / `application/Problem+JSON` is not recognised as JSON, the body is not validated against the documented schema (or a documented `application/json` entry is not matched)", pf.loc(tup))
+        strips = any(last_attr(c) in ("_parse_header",) for c in body_calls(pf))
+        chk.decide(True if strips else None, "C04.R10", pf, "parameters (`; charset=...`) are split off before the comparison", "parameter handling not recognised", pf.loc())
+    ij = P.func("core/media_types.py:is_json")
+    body = " ".join(unparse(r, 300) for r in simple_return_expr(ij))
+    has_app = "== 'application'" in body
+    has_json = "== 'json'" in body
+    has_suffix = ".endswith('+json')" in body
+    if has_app and has_json and has_suffix and " and " in body:
+        chk.ok("C04.R10", ij, "is_json: application/json or application/*+json", body[:80], ij.loc())
+    elif has_json and not has_suffix:
+        chk.violation("C04.R10", ij, "is_json: application/json or application/*+json", "the `+json` structured suffix is not accepted: `application/problem+json` / `application/vnd.api+json` responses are never validated against their schema", ij.loc())
+    elif (has_json or has_suffix) and not has_app:
+        chk.violation("C04.R10", ij, "is_json: application/json or application/*+json", "the main type is not required to be `application`: `text/json`-like or `image/x+json` types are parsed and validated as JSON", ij.loc())
+    else:
+        chk.undecided("C04.R10", ij, "is_json: application/json or application/*+json", f"shape not recognised: {body[:80]}", ij.loc())
+
+
 def rules(tier: str) -> list:  # type: ignore[type-arg]
-    return [r1_status_lookup, r2_media_type, r3_collected_raise, r4_run_checks, r5_registered, r6_copy_discipline, r7_total_status_expansion, r8_forbid_each, r9_memo]
+    return [r1_status_lookup, r2_media_type, r3_collected_raise, r4_run_checks, r5_registered, r6_copy_discipline, r7_total_status_expansion, r8_forbid_each, r9_memo, r10_media_type_predicates]
